@@ -29,6 +29,9 @@ def gen_history(g, rng, length, cfg=None):
             h.op_attr()
         else:
             h.op_new_with_children()
+        if getattr(h, "dead", False):
+            h.problems.append((len(h.items) - 1, ["a constructor given children raised (%s): the children it had taken are left attached to an object that was never returned" % (h.ctor_error,)]))
+            break
         if len(h.items) == n0:
             continue
         bad = world.oracle_forest(h.w)
